@@ -14,7 +14,7 @@
   the loader itself may refuse (`levels=True` with a conflicting order) and exclude the
   level gaps of F7 (`Contig`).  For JSON the writer is proved, the reader is not.
 -/
-import DDProofs.DumpJson
+import DDProofs.DumpJsonOrder
 open Std
 namespace DD
 
@@ -144,10 +144,19 @@ theorem C12_json_roundtrip_off (src : Mgr) (hIs : Inv src) (hvs : DmpVarsOK src.
       LoadedAs src.tbl roots m'.tbl roots' :=
   json_roundtrip_off src hIs hvs roots f hd tgt e hg hpn hroots
 
-/-- the full JSON round trip follows from the full reader statement (not proved: `load_order=True`
-and reordering-enabled targets) and the proved writer -/
-theorem C12_json_roundtrip_of_load (hL : json_load_statement) : json_roundtrip_statement :=
-  json_roundtrip_of_load hL
+/-- `json_load_statement`: `_copy.load_json` for BOTH values of `load_order`; dynamic reordering
+not enabled in the receiving manager (the one remaining restriction).  `load_order=True`:
+`reorder(order)` by `C07_reorder_order_total` (default schedule), the unique table stays free of
+stray entries through the swaps (`reorder_predNodes`), `find_or_add` by name at the level of the
+file, the `ref < 3` assertion by exact counts and in-degrees, `assert_consistent`. -/
+theorem C12_json_load : json_load_statement := json_load_holds
+
+/-- `json_roundtrip`, both values of `load_order`; reordering not enabled in the target -/
+theorem C12_json_roundtrip : json_roundtrip_statement := json_roundtrip_holds
+
+/-- the reordering operations keep the unique table free of stray entries -/
+theorem C12_reorder_predNodes (order : Option (List (String × Int))) (m : Mgr) (hp : PredNodes m)
+    (hI : Inv (reorder order m).2) : PredNodes (reorder order m).2 := reorder_predNodes order m hp hI
 
 /-- observation (outside the text of C12): after `load_json(load_order=True)` dynamic
 reordering is enabled, whatever it was before -/
